@@ -65,6 +65,14 @@ def _poi(E):
     E.prove('poi:frame_only_if_its_parse_completed', isinstance(r, SObj) and status.get(id(r), ('', 0))[0] == 'ok')
     E.prove('poi:frame_type_matches_header', z3.IntVal(E.getattr(r, 'frame_type').value) == tid)
     E.prove('poi:has_full_header', n >= 6)
+    # whatever the decoder accepts from a (possibly hostile) peer can be written again: the KEEPALIVE echo re-serialises the
+    # very frame that was received, and a frame that cannot be serialised kills the sender
+    if r.cls.name == 'KeepAliveFrame':
+        try:
+            E.call(E.getattr(r, 'serialize'), [])
+            E.prove('poi:an_accepted_KEEPALIVE_can_be_serialised_again[echo]', True)
+        except PyExc as e:
+            E.prove('poi:an_accepted_KEEPALIVE_can_be_serialised_again[echo]', False)
 
 
 both_backends('c12.parse_or_ignore.total', ['C12', 'C04'], functions=[FR + 'parse_or_ignore', FR + 'is_frame_to_ignore'] + PARSERS,
